@@ -101,13 +101,27 @@ Proof.
     now rewrite app_assoc_str.
 Qed.
 
+(* the prefix test of list_conflicts_keys selects only keys that start with "$c" *)
+Lemma conflicts_prefix_nonsys key k :
+  starts_with k (if String.eqb key "" then "$conflicts_" else "$conflicts_" +++ key +++ "_") = true ->
+  starts_with k "$$" = false.
+Proof.
+  destruct (String.eqb key ""); intros H.
+  - change "$conflicts_" with (String "$" (String "c" "onflicts_")) in H.
+    apply sw_cons_inv in H. destruct H as [k1 [-> H]].
+    apply sw_cons_inv in H. destruct H as [k2 [-> H]]. reflexivity.
+  - change ("$conflicts_" +++ key +++ "_") with (String "$" (String "c" ("onflicts_" +++ key +++ "_"))) in H.
+    apply sw_cons_inv in H. destruct H as [k1 [-> H]].
+    apply sw_cons_inv in H. destruct H as [k2 [-> H]]. reflexivity.
+Qed.
+
 Lemma list_conflicts_keys_nonsys d key k :
   In k (list_conflicts_keys d key) -> starts_with k "$$" = false.
 Proof.
-  unfold list_conflicts_keys, list_keys. intros H. apply In_sort_strs in H.
+  unfold list_conflicts_keys. intros H. apply In_sort_strs in H.
   apply in_map_iff in H. destruct H as [kv [<- H]]. apply filter_In in H. destruct H as [_ H].
   apply Bool.andb_true_iff in H. destruct H as [_ H].
-  eapply conflicts_pat_nonsys; eauto.
+  eapply conflicts_prefix_nonsys; eauto.
 Qed.
 
 Lemma conflict_key_nonsys ch : starts_with (conflict_key ch) "$$" = false.
@@ -208,10 +222,10 @@ Qed.
 
 Lemma list_conflicts_keys_pd d key : list_conflicts_keys (pd d) key = list_conflicts_keys d key.
 Proof.
-  unfold list_conflicts_keys, list_keys. cbn [pd d_map]. rewrite pm_filter; auto.
+  unfold list_conflicts_keys. cbn [pd d_map]. rewrite pm_filter; auto.
   intros kv H. apply nonsys_nonsecret.
   apply Bool.andb_true_iff in H. destruct H as [_ H].
-  eapply conflicts_pat_nonsys; eauto.
+  eapply conflicts_prefix_nonsys; eauto.
 Qed.
 
 Lemma has_pending_conflict_pd d key : has_pending_conflict (pd d) key = has_pending_conflict d key.
